@@ -7,8 +7,11 @@ Decided:
   R08.a  user code is always under a handler: on every call-graph path from Application.__call__ to the
          calls that run user code (route.execute -> inject(self._execute), execute_error ->
          inject(self.render_error)) some frame encloses the call in a handler catching Exception;
-         RerouteWSGI is re-raised by an earlier, more specific handler and is caught in _dispatch_wsgi; the
-         handler of route.execute keeps an HTTPException as the result (raised == returned) and routes
+         RerouteWSGI is let out again by the first handler that can catch it (a handler of its own that always re-raises,
+         or the generic handler: every way through it not known to handle something else -- no branch taken that says
+         ``isinstance(exc, RerouteWSGI)`` is false -- ends in re-raising the handled exception) and is caught in
+         _dispatch_wsgi; the handler of route.execute keeps an HTTPException as the result (raised == returned: on every way
+         on which the exception is not known not to be one, the result is bound to the exception and not bound again) and routes
          everything else through err_handler.uncaught_to_response; the handler of execute_error falls
          back to default_render_error with the *same* parameters (same error);
   R08.b  non-Response results: the isinstance(ret, BaseResponse) test and its ``raise TypeError`` sit in
